@@ -38,9 +38,10 @@ from corr import netbuild as nb
 
 SPEC = {
     "prop": "C12",
-    "lean_targets": ["InfernoVerif.Props.C12", "InfernoVerif.Model.Persist", "InfernoVerif.Drv.Proto",
+    "translate": ["PersistProg"],
+    "lean_targets": ["InfernoVerif.Props.C12", "InfernoVerif.Props.C12GlueProg", "InfernoVerif.Model.Persist", "InfernoVerif.Drv.Proto",
                      "InfernoVerif.Gen.Prelude"],
-    "prop_files": ["InfernoVerif/Props/C12.lean"],
+    "prop_files": ["InfernoVerif/Props/C12.lean", "InfernoVerif/Props/C12GlueProg.lean"],
     "lemma_files": ["InfernoVerif/Lemmas/Persist.lean"],
     "model_files": ["InfernoVerif/Model/Persist.lean", "InfernoVerif/Model/RingOps.lean", "InfernoVerif/Model/Ring.lean"],
     "driver_targets": ["InfernoVerif.Model.Persist", "InfernoVerif.Drv.Proto", "InfernoVerif.Gen.Prelude"],
